@@ -7,7 +7,7 @@ import (
 
 	"github.com/CrowdStrike/csproto"
 
-	"verif/harness/internal/tr"
+	"verif/harness/tr"
 )
 
 // famReplay re-executes the calls of a stored replay file (events of an earlier run) against the
